@@ -20,6 +20,8 @@
  * Two test facilities for the driver (never active unless armed by a script line):
  *  - maps_inject(kind, k, err): the k-th call of that helper kind (update / delete) made by the NEXT program
  *    run fails with -err and has no effect (the kernel's -EBUSY / -ENOMEM / -E2BIG paths);
+ *  - maps_inject_call(k, err): the k-th map helper call of the NEXT program run (lookups counted), if it is an
+ *    update or a delete, fails with -err and has no effect (Model/EbpfFaults.v's oracle fail_at k);
  *  - maps_sched(k, fn): right after the k-th map helper call of the NEXT program run returns, fn() runs:
  *    another caller's program on another CPU between two helper calls of this one.
  */
@@ -57,6 +59,8 @@ static int sched_k;
 static void (*sched_fn)(void);
 static int helper_calls;                 /* map helper calls in the current run */
 static int in_nested;
+static int inj_any_k, inj_any_err;       /* the k-th map helper call of the next run, whatever its kind */
+static int call_no;                      /* map helper calls (lookups included) in the current run */
 
 void maps_register(void *handle, const char *name, __u32 type, __u32 key_size, __u32 value_size,
                    __u32 max_entries)
@@ -124,6 +128,7 @@ void maps_reset(void)
         maps[i].count = 0;
     }
     inj_kind = 0;
+    inj_any_k = 0;
     sched_fn = NULL;
     in_nested = 0;
 }
@@ -148,12 +153,14 @@ static void move_to_front(struct vmap *m, struct node **pp)
 /* ---- fault injection and the scheduler point ----------------------------------------------------- */
 
 void maps_inject(int kind, int k, int err) { inj_kind = kind; inj_k = k; inj_err = err; }
+void maps_inject_call(int k, int err) { inj_any_k = k; inj_any_err = err; }
 void maps_sched(int k, void (*fn)(void)) { sched_k = k; sched_fn = fn; }
 void maps_run_begin(void)
 {
     if (in_nested)
         return;
     helper_calls = 0;
+    call_no = 0;
     inj_count[0] = inj_count[1] = inj_count[2] = 0;
 }
 /* returns 1 if the scheduler point never fired during the run */
@@ -163,12 +170,17 @@ int maps_run_end(void)
         return 0;
     int pending = sched_fn != NULL;
     inj_kind = 0;
+    inj_any_k = 0;
     sched_fn = NULL;
     return pending;
 }
 static int injected(int kind)
 {
-    if (in_nested || inj_kind != kind)
+    if (in_nested)
+        return 0;
+    if (inj_any_k && call_no == inj_any_k)
+        return inj_any_err;
+    if (inj_kind != kind)
         return 0;
     if (++inj_count[kind] == inj_k) {
         inj_kind = 0;
@@ -279,12 +291,16 @@ static long delete(struct vmap *m, const void *key)
 /* ---- the helpers called by the BPF program -------------------------------------------- */
 void *bpf_map_lookup_elem(void *map, const void *key)
 {
+    if (!in_nested)
+        call_no++;
     void *r = lookup(find_map(map), key, 1);
     helper_returned();
     return r;
 }
 long bpf_map_update_elem(void *map, const void *key, const void *value, __u64 flags)
 {
+    if (!in_nested)
+        call_no++;
     int e = injected(MAPS_INJECT_UPDATE);
     long r = e ? -e : update(find_map(map), key, value, flags);
     helper_returned();
@@ -292,6 +308,8 @@ long bpf_map_update_elem(void *map, const void *key, const void *value, __u64 fl
 }
 long bpf_map_delete_elem(void *map, const void *key)
 {
+    if (!in_nested)
+        call_no++;
     int e = injected(MAPS_INJECT_DELETE);
     long r = e ? -e : delete(find_map(map), key);
     helper_returned();
